@@ -50,9 +50,7 @@ def cases(rng, tier):
     for inp in sc.gen_level_a(rng, tier, hints=True):
         if inp["kind"] in ("lp", "ck", "p3", "rl"):
             yield inp
-    for inp in sc.gen_e2e(rng, tier):
-        if not sc.is_stream_error_before_first_chunk(inp):     # C29's finding, not a C30 matter
-            yield inp
+    yield from sc.gen_e2e(rng, tier)
 
 
 def impl(inp):
